@@ -603,10 +603,10 @@ class Prop(Check):
         gtxt = grammar_text(case)
         obs = {"grammar_text": gtxt}
         try:
-            with watchdog(10):
+            with watchdog(40):
                 mm = metamodel_from_str(gtxt, auto_init_attributes=bool(case.get("auto_init", True)))
         except Watchdog:
-            obs["grammar"] = {"other": "Watchdog", "msg": "grammar load did not finish in 10 s of CPU time"}
+            obs["grammar"] = {"other": "Watchdog", "msg": "grammar load did not finish in 40 s of CPU time"}
             return obs
         except TextXError as e:
             msg = str(e)
@@ -708,12 +708,12 @@ class Prop(Check):
             obs["texts"].append(tobs)
             # 1. what the parser matched
             try:
-                with watchdog(5):
+                with watchdog(20):
                     parser = mm._parser_blueprint.clone()
                     parser.parse(text)
                 top = parser.parse_tree[0] if isinstance(parser.parse_tree, NonTerminal) and len(parser.parse_tree) else None
             except Watchdog:
-                tobs["parse"] = {"other": "Watchdog", "msg": "parse did not finish in 5 s of CPU time"}
+                tobs["parse"] = {"other": "Watchdog", "msg": "parse did not finish in 20 s of CPU time"}
                 continue
             except TextXSyntaxError as e:
                 tobs["parse"] = {"syntax": [e.line, e.col]}
@@ -731,11 +731,11 @@ class Prop(Check):
             tobs["parse"] = {"ok": {"objs": objs, "assigned": assigned}}
             # 2. what the model holds
             try:
-                with watchdog(5):
+                with watchdog(20):
                     model = mm.model_from_str(text)
                 tobs["model"] = {"ok": model_objs(model)}
             except Watchdog:
-                tobs["model"] = {"other": "Watchdog", "msg": "model construction did not finish in 5 s of CPU time"}
+                tobs["model"] = {"other": "Watchdog", "msg": "model construction did not finish in 20 s of CPU time"}
             except TextXSemanticError as e:
                 tobs["model"] = {"err": {"cls": type(e).__name__, "err_type": getattr(e, "err_type", None), "msg": str(e)[:200]}}
             except TextXError as e:
@@ -790,6 +790,8 @@ class Prop(Check):
         rules = self._rules(case)
         g = obs["grammar"]
         mrej = [r["rej"] for r in out["rules"]]
+        if g.get("other") == "Watchdog":
+            return None  # not an observation of the property (counted in the evidence)
         if "ok" not in g:
             if "err" in g and g["err"]["kind"] in ("bool-multi", "bool-rep"):
                 if not any(mrej):
@@ -820,6 +822,8 @@ class Prop(Check):
                     return f"text {ti}: assignment trace of {o['rule']}@{o['pos']} is not in Events of the rule body: {o['trace']}"
             predicted_err = [mo["store"]["err"] for _, mo in mine if "err" in mo["store"]]
             m = t["model"]
+            if m.get("other") == "Watchdog":
+                continue
             if "ok" not in m:
                 kind = "multAssign" if m.get("err", {}).get("err_type") == "Multiple assignments" else "crash"
                 if kind not in predicted_err:
@@ -851,6 +855,8 @@ class Prop(Check):
         g = obs["grammar"]
         bodies = {r: rule_body(case, r) for r in case["rules"]}
         expected_rej = any(bool_rejection_expected(b) for b in bodies.values())
+        if g.get("other") == "Watchdog":
+            return None  # a hang is not an observation of this property (counted in the evidence)
         if "ok" not in g:
             if "err" in g and g["err"]["kind"] in ("bool-multi", "bool-rep") and expected_rej:
                 return None
@@ -869,7 +875,7 @@ class Prop(Check):
         for ti, (t, tc) in enumerate(zip(obs["texts"], case["texts"])):
             p = t.get("parse", {})
             if "ok" not in p:
-                if "syntax" in p:
+                if "syntax" in p or p.get("other") == "Watchdog":
                     continue
                 return f"text {ti} {t['text']!r}: parser crashed: {p}"
             vals = [x[1] for x in tc["tokens"] if x[0] == "val"]
@@ -877,6 +883,8 @@ class Prop(Check):
                 return (f"text {ti} {t['text']!r}: accepted, value tokens {vals} but the assignments of the parse "
                         f"matched {p['ok']['assigned']}")
             m = t["model"]
+            if m.get("other") == "Watchdog":
+                continue
             if "ok" not in m:
                 et = m.get("err", {}).get("err_type")
                 if et == "Multiple assignments":
@@ -949,6 +957,7 @@ class Prop(Check):
         for c, o in zip(cases, obs):
             if not isinstance(o, dict) or "grammar" not in o:
                 continue
+            d["watchdog"] += o["grammar"].get("other") == "Watchdog"
             if "ok" in o["grammar"]:
                 d["grammars_accepted"] += 1
                 for r, ms in o["grammar"]["ok"].items():
